@@ -19,6 +19,9 @@ import EinoV.Expected.C03
 
   {"kind":"run","nodes":[{"key","preds"}],"endPreds":[…],"input":s}   order-free reference
       result of an acyclic graph with the deterministic bodies `bodyOut`.
+
+  {"kind":"eager",…same graph…,"order":[keys]}   the eager engine (`eRun`) following a given
+      completion order: what was submitted, collected, left uncollected when END fired.
 -/
 namespace EinoV.Oracle.C03
 open Lean EinoV EinoV.C03
@@ -207,10 +210,24 @@ def handleRun (c : Json) : JE Json := do
     ("execs", J.mkStrs st.execs),
     ("feedsEnd", J.mkStrs (feeds.filter (· != endKey)))]
 
+/-- {"kind":"eager",…graph…,"order":[keys]}: the eager engine following the completion order
+    observed in the real run (the order of the `recv` events) -/
+def handleEager (c : Json) : JE Json := do
+  let nodes ← (← J.arr c "nodes").mapM parseNode
+  let g : GCase := { nodes := nodes, endPreds := (← J.strList c "endPreds"), input := (← J.str c "input") }
+  let st := eRun g (← J.strList c "order")
+  pure <| Json.mkObj [
+    ("result", J.mkArr ((eResult g st).map fun p => J.mkStrs [p.1, p.2])),
+    ("returned", Json.bool (eEndReady g st)),
+    ("started", J.mkStrs (st.started.filter (· != startKey))),
+    ("collected", J.mkStrs (st.done.filter (· != startKey))),
+    ("uncollected", J.mkStrs (eUncollected st))]
+
 def handle (c : Json) : JE Json := do
   match (← J.str c "kind") with
   | "tmtrace" => handleTrace c
   | "run" => handleRun c
+  | "eager" => handleEager c
   | k => throw s!"bad case kind {k}"
 
 end EinoV.Oracle.C03
